@@ -275,7 +275,9 @@ CLAIMED["C10"] = dict(
          "whenever that index equals the paused one; that loop invariant ((ri-1)*rule_step <= prev < ri*rule_step after every solved step) is "
          "PROVED through the whole presolve loop for every configuration whose simple controls are sim-time conditions without repeat and any "
          "rules (sorted backtracks, three branches), giving restart equivalence without side condition there; for clock / repeating conditions "
-         "(whose backtracks are wrong in the code, C04 findings) it stays a per-case check; for the same fragment the solved times are PROVED strictly "
+         "(whose backtracks are wrong in the code, C04 findings) it stays a per-case check; an on/off window of two AT TIME controls (a leak) paused ANYWHERE and continued by a new simulator object keeps the target on exactly on "
+         "[ts, te) with steps solved at ts and te after the pause (C10_window_survives_pause, a functional statement across the restart); "
+         "for the same fragment the solved times are PROVED strictly "
          "increasing in one run and across a pause (a time is never revisited); with the index "
          "restarted at 0 (the behaviour before the fix) the model provably steps back to t = 0. Ties decided inside coqc: for generated "
          "time-driven configurations the concatenated (time, status) trace of real runs paused at 1-3 grid points, with/without pickle, "
